@@ -60,6 +60,7 @@ struct Rank {
 };
 
 static int N = 1, PPN = 0;
+static bool CYCLIC = false;   // ranks placed on the nodes round-robin (mpirun --map-by node) instead of in blocks
 static uint64_t seed = 1, step = 0, last_progress = 0, maxsteps = 20000000ull, spinlimit = 200000ull;
 static std::string policy = "uniform", glogpath, logdir;
 static uint64_t eager = 4096;
@@ -209,7 +210,7 @@ static void coll_compute(Coll &c) {
     for (size_t i = 0; i < mem.size(); ++i) {
       int w = mem[i];
       int color = c.colorkey[w].first;
-      if (color == -7777) color = w / PPN;
+      if (color == -7777) color = CYCLIC ? w % (N / PPN) : w / PPN;
       groups[color].push_back({{c.colorkey[w].second, (int)i}, w});
     }
     for (auto &g : groups) {
@@ -530,6 +531,7 @@ int main(int argc, char **argv) {
     auto next = [&]() { return std::string(argv[++i]); };
     if (a == "-n") N = atoi(next().c_str());
     else if (a == "-ppn") PPN = atoi(next().c_str());
+    else if (a == "-cyclic") CYCLIC = true;
     else if (a == "-seed") seed = strtoull(next().c_str(), nullptr, 10);
     else if (a == "-policy") policy = next();
     else if (a == "-eager") eager = strtoull(next().c_str(), nullptr, 10);
